@@ -400,3 +400,105 @@ def locked_colors_arg_sets():
         lp._scenario = {"features": sorted(on), "expected": expected}
         out.append({"self": lp})
     return out
+
+
+# =================================================================================================
+# LayoutPlanner._inject_wire_colors_into_placements (with _inject_operand_wire_color, _inject_condition_wire_colors,
+# _resolve_source_entity): after routing, every signal operand of a combinator is told which wire colour(s) to READ — and these
+# are the colours on which the planner actually DELIVERS that operand to this combinator:
+#   a plain operand             the colour of the edge (producer, this combinator, operand signal); the producer of a reference whose
+#                               node was optimised away is the entity the signal graph resolves it to
+#   a member selected from a    the edge is registered under the bundle's name: the one colour of the edges producer -> combinator
+#     bundle / entity output
+#   a wire-merged operand       every colour one of its members arrives on
+#   a condition row's operand   the colour of its own edge (rows that already carry a wire filter keep it)
+# integer operands get no filter.  Evaluated on the REAL methods over an enumerated box: bounded.
+# =================================================================================================
+IWQ = "dsl_compiler/src/layout/planner.py::LayoutPlanner._inject_wire_colors_into_placements"
+
+
+def _inject_post(a, res):
+    me = a.self
+    sc = me._scenario
+    props = me.layout_plan.get_placement("comb").properties
+    ok = []
+    for side in ("left", "right"):
+        want = sc["expect"].get(side)
+        got = props.get(f"{side}_operand_wires")
+        ok.append(got == want if want is not None else got is None)
+    for i, want in enumerate(sc["expect"].get("rows", [])):
+        row = props["conditions"][i]
+        ok.append(row.get("first_signal_wires") == want)
+    return all(ok)
+
+
+inject_colors = Contract(qualname=IWQ, params={"self": ty.TOpaque("planner")},
+                         ensures=[("each signal operand reads exactly the colour(s) it is delivered on; integers get no filter", _inject_post)],
+                         verify=False, properties=("C01", "C02", "C12"), note="evaluated on the real method over an enumerated box (bounded stand-in)")
+CONTRACTS.append(inject_colors)
+
+
+def inject_colors_arg_sets():
+    from dsl_compiler.src.ir.nodes import BundleRef, SignalRef
+    from dsl_compiler.src.layout.connection_planner import ConnectionPlanner
+    from dsl_compiler.src.layout.layout_plan import LayoutPlan
+    from dsl_compiler.src.layout.planner import LayoutPlanner
+    from dsl_compiler.src.layout.signal_graph import SignalGraph
+
+    class _Diag:
+        def info(self, *a, **k):
+            pass
+        warning = error = info
+
+    out = []
+    left_kinds = ("plain", "resolved", "bundle-member", "merged-same", "merged-split", "int")
+    for lk, lcol, rk, rcol, etype in _it2c.product(left_kinds, ("red", "green"), ("plain", "int"), ("red", "green"), ("arithmetic-combinator", "decider-combinator")):
+        plan, g, junctions, colors, expect = LayoutPlan(), SignalGraph(), {}, {}, {}
+        for nid in ("srcA", "srcB", "srcM1", "srcM2", "real_producer"):
+            plan.create_and_add_placement(ir_node_id=nid, entity_type="constant-combinator", position=None, footprint=(1, 2), role="literal", debug_info={})
+        props = {}
+        other = "green" if lcol == "red" else "red"
+        if lk == "int":
+            props.update(left_operand=7, left_operand_signal_id=None)
+        elif lk == "plain":
+            props.update(left_operand="signal-A", left_operand_signal_id=SignalRef("signal-A", "srcA"))
+            colors[("srcA", "comb", "signal-A")] = lcol
+            expect["left"] = {lcol}
+        elif lk == "resolved":   # the node that produced the reference is gone; the graph names the combinator that took over
+            props.update(left_operand="signal-A", left_operand_signal_id=SignalRef("signal-A", "mem_read_7"))
+            g.set_source("mem_read_7", "real_producer")
+            colors[("real_producer", "comb", "signal-A")] = lcol
+            expect["left"] = {lcol}
+        elif lk == "bundle-member":
+            props.update(left_operand="signal-A", left_operand_signal_id=SignalRef("signal-A", "srcA"))
+            colors[("srcA", "comb", "signal-each")] = lcol
+            expect["left"] = {lcol}
+        else:
+            props.update(left_operand="signal-A", left_operand_signal_id=SignalRef("signal-A", "merge_1"))
+            junctions["merge_1"] = {"inputs": [SignalRef("signal-A", "srcM1"), SignalRef("signal-A", "srcM2")], "output_id": "merge_1"}
+            colors[("srcM1", "comb", "signal-A")] = lcol
+            colors[("srcM2", "comb", "signal-A")] = lcol if lk == "merged-same" else other
+            expect["left"] = {lcol} if lk == "merged-same" else {"red", "green"}
+        if rk == "int":
+            props.update(right_operand=3, right_operand_signal_id=None)
+        else:
+            props.update(right_operand="signal-B", right_operand_signal_id=SignalRef("signal-B", "srcB"))
+            colors[("srcB", "comb", "signal-B")] = rcol
+            expect["right"] = {rcol}
+        if etype == "decider-combinator":
+            props["conditions"] = [
+                {"comparator": ">", "compare_type": "or", "first_signal": "signal-B", "first_signal_id": SignalRef("signal-B", "srcB"), "second_constant": 0},
+                {"comparator": ">", "compare_type": "and", "first_signal": "signal-S", "first_signal_wires": {"green"}, "second_constant": 0},
+            ]
+            expect["rows"] = [({rcol} if rk != "int" else None), {"green"}]
+            if rk == "int":
+                colors.pop(("srcB", "comb", "signal-B"), None)
+        plan.create_and_add_placement(ir_node_id="comb", entity_type=etype, position=None, footprint=(1, 2), role="x", debug_info={}, **props)
+        cp = object.__new__(ConnectionPlanner)
+        cp._edge_wire_colors = dict(colors)
+        lp = object.__new__(LayoutPlanner)
+        lp.layout_plan, lp.signal_graph, lp.connection_planner, lp._wire_merge_junctions, lp.diagnostics = plan, g, cp, junctions, _Diag()
+        lp.signal_usage = {}
+        lp._scenario = {"left": lk, "right": rk, "expect": expect}
+        out.append({"self": lp})
+    return out
